@@ -1471,6 +1471,11 @@ func (stmt *UpsertIntoStmt) execAt(ctx context.Context, tx *SQLTx, params map[st
 
 				pkMustExist = nl <= table.maxPK
 
+				if nl > table.maxPK {
+					// keys generated later in this transaction continue after the specified one
+					table.maxPK = nl
+				}
+
 				if _, ok := tx.firstInsertedPKs[table.name]; !ok {
 					tx.firstInsertedPKs[table.name] = nl
 				}
